@@ -468,6 +468,16 @@ func (w *world) pcs() []int {
 	return p
 }
 
+// held: a Mount/Unmount of mountpoint m has begun and is not finished
+func (w *world) held(m int) bool {
+	for _, rq := range w.reqs {
+		if rq.gen == w.gen && rq.tid >= 0 && rq.where != "done" && rq.kind != "check" && rq.m == m {
+			return true
+		}
+	}
+	return false
+}
+
 func (w *world) busy() bool {
 	for _, rq := range w.reqs {
 		if rq.gen == w.gen && rq.where != "done" {
@@ -589,11 +599,14 @@ func exec(c Case, ctx *hx.Ctx) ([]step, []string) {
 			if rq.gen != w.gen {
 				continue
 			}
-			if w.wait(rq, 300*time.Millisecond) {
-				still = append(still, rq)
-			} else {
-				begun(i, rq)
+			if w.held(rq.m) {
+				still = append(still, rq) // the mutex it waits for is still held
+				continue
 			}
+			if w.wait(rq, 20*time.Second) {
+				panic("HARNESS: a request waiting for a free per-mountpoint mutex does not go on")
+			}
+			begun(i, rq)
 		}
 		waiting = still
 	}
@@ -606,7 +619,16 @@ func exec(c Case, ctx *hx.Ctx) ([]step, []string) {
 			rq := w.spawn(kind, o.M, o.L)
 			handles = append(handles, rq)
 			nbegin++
-			if w.wait(rq, 60*time.Millisecond) {
+			// Only a request for a mountpoint on which another Mount/Unmount is in flight can be waiting for the
+			// per-mountpoint mutex; only then is silence interpreted as "waits" (otherwise wait for its event).
+			patience := 20 * time.Second
+			if kind != "check" && w.held(o.M) {
+				patience = 150 * time.Millisecond
+			}
+			if w.wait(rq, patience) {
+				if patience > time.Second {
+					panic("HARNESS: request does not reach its first sub-step")
+				}
 				// waits for a mutex: in the model this begin does nothing now
 				waiting = append(waiting, rq)
 				name := map[string]string{"mount": fmt.Sprintf("BMount %d %d", o.M, o.L), "unmount": fmt.Sprintf("BUnmount %d", o.M), "check": fmt.Sprintf("BCheck %d %d", o.M, o.L)}[kind]
